@@ -26,7 +26,7 @@ RULE = ("Hypothesis draws, for each of 24 accessor operations (whits s/sg/p, whi
         "spi with/without groups, lroo, croo, autocorr in both layouts, mktrend with/without nodata, mean_grp, rolling.sum, zonal.mean, "
         "iteragg.sum/mean), a cube (2..4 x 2..5 pixels, 6..24 steps, several input dtypes), a chunking of y/x (1-pixel, ragged, single), "
         "a scheduler (synchronous / threads with 1..16 workers), a dim order and a pixel permutation. Oracles: eager result == lazy "
-        "result (values NaN-equal, dims, coords, dtype declared by the lazy object, dtype after compute); chunked time -> identical "
+        "result (values NaN-equal, dims, coords, dtype declared by the lazy object, dtype after compute), also when two lazy results on the same cube are evaluated in one graph; chunked time -> identical "
         "values or an exception; permuting pixels permutes results. ws2doptvplc_tyx under numba.set_num_threads(1..16) is bit-identical "
         "to 1 thread. First-call races of the lazy-compilation wrapper: all thread schedules with <= 2 (thorough: 3) switches for 2 and 3 threads are "
         "enumerated at line level with a stub compiler, opcode-level schedules are generated; real kernels are raced in fresh processes "
@@ -186,6 +186,45 @@ def sub_time_chunked(case):
     return "handled"
 
 
+def _pairs():
+    """Two calls of the same operation on the same cube that differ only in a parameter (for joint evaluation in one graph)."""
+    sr1, sr2 = np.arange(-2.0, 2.1, 0.5), np.arange(-1.0, 3.1, 0.5)
+
+    def zones2(d):
+        ny, nx = d.sizes["y"], d.sizes["x"]
+        return xr.DataArray(((np.arange(ny * nx) // 2) % 3).astype("int16").reshape(ny, nx), dims=("y", "x"), attrs={"nodata": -1})
+
+    return {
+        "zonal_named": ("zonal", lambda d: d.hdc.zonal.mean(_zones(d), [0, 1, 2], name="zm"), lambda d: d.hdc.zonal.mean(zones2(d), [0, 1, 2], name="zm")),
+        "zonal_dtype": ("zonal", lambda d: d.hdc.zonal.mean(_zones(d), [0, 1, 2], name="zm"), lambda d: d.hdc.zonal.mean(_zones(d), [0, 1, 2], name="zm", dtype="float64")),
+        "zonal_unnamed": ("zonal", lambda d: d.hdc.zonal.mean(_zones(d), [0, 1, 2]), lambda d: d.hdc.zonal.mean(zones2(d), [0, 1, 2])),
+        "whits": ("ndvi", lambda d: d.hdc.whit.whits(-3000, s=10.0), lambda d: d.hdc.whit.whits(-3000, s=100.0)),
+        "whitsvc": ("ndvi", lambda d: d.hdc.whit.whitsvc(-3000, srange=sr1), lambda d: d.hdc.whit.whitsvc(-3000, srange=sr2)),
+        "spi": ("rain", lambda d: d.hdc.algo.spi(), lambda d: d.hdc.algo.spi(calibration_begin=str(T[2].date()))),
+        "rolling": ("roll", lambda d: d.hdc.rolling.sum(3), lambda d: d.hdc.rolling.sum(4)),
+        "mean_grp": ("any", lambda d: d.hdc.algo.mean_grp([t % 3 for t in range(d.sizes["time"])]),
+                     lambda d: d.hdc.algo.mean_grp([t % 2 for t in range(d.sizes["time"])])),
+        "autocorr": ("ac", lambda d: d.hdc.algo.autocorr(), lambda d: (d + 0).hdc.algo.autocorr()),
+    }
+
+
+def sub_joint(case):
+    """Two lazy results built on the same dask cube and evaluated in ONE graph must both equal their eager results."""
+    kind, fa, fb = _pairs()[case["pair"]]
+    c = dict(case, op={"zonal": "zonal_mean", "ndvi": "whits_s", "rain": "spi", "roll": "rolling_sum", "any": "mean_grp", "ac": "autocorr"}[kind])
+    d = _input(c)
+    with warnings.catch_warnings():
+        warnings.simplefilter("ignore")
+        ea, eb = call(case["pair"] + " eager", lambda: (fa(d), fb(d)))
+        lz = d.chunk(_chunks(c, d))
+        la, lb = call(case["pair"] + " lazy", lambda: (fa(lz), fb(lz)))
+        kw = {"scheduler": "synchronous"} if case["sched"] == "synchronous" else {"scheduler": "threads", "num_workers": case["workers"]}
+        with dask.config.set(**kw):
+            ca, cb = call(case["pair"] + " joint compute", lambda: dask.compute(la, lb))
+    _same(case["pair"] + " (first of two results computed in one graph)", ea, la, ca)
+    _same(case["pair"] + " (second of two results computed in one graph)", eb, lb, cb)
+
+
 def sub_pixel_perm(case):
     if case["op"] in ("zonal_mean",):
         return
@@ -313,7 +352,7 @@ def sub_real_race(case, proc=None):
         "race wrong result")
 
 
-SUBS = {"lazy": sub_lazy, "time_chunked": sub_time_chunked, "pixel_perm": sub_pixel_perm, "threads": sub_threads, "schedule": sub_schedule,
+SUBS = {"joint": sub_joint, "lazy": sub_lazy, "time_chunked": sub_time_chunked, "pixel_perm": sub_pixel_perm, "threads": sub_threads, "schedule": sub_schedule,
         "real_race": sub_real_race}
 
 
@@ -357,6 +396,14 @@ def run(ctx):
     per_op = ctx.n(5, 60)
     for op in sorted(_ops()):
         ctx.given("lazy", cube([op]), per_op, fn=f_lazy, shrink=False)
+
+    def f_j(case):
+        rec.case("joint", case, nontrivial=True, cls=["pair:" + case["pair"], "sched:" + case["sched"]])
+        sub_joint(case)
+
+    for pair in sorted(_pairs()):
+        ctx.given("joint", cube(["whits_s"]).map(lambda c, pair=pair: dict(c, pair=pair, dtype="int16" if pair != "autocorr" else c["dtype"] if c["dtype"] in ("int16", "float32", "float64") else "int16")),
+                  ctx.n(3, 30), fn=f_j, shrink=False)
 
     def f_tc(case):
         how = sub_time_chunked(case)
